@@ -92,6 +92,12 @@ CLAIMED = {
         "Time models taken from the planners' documentation/verify_schedule conventions (ILP closed intervals and +1 precedence, TetriSched half-open windows on the slot grid); licence-limited sizes; brute-force truncation discards the case.",
         "DESIGN.md 3 C14",
     ),
+    "C15": (
+        "model-based operation histories (Hypothesis op-lists: submit / advance / load / evict / schedule+apply) against the real ClockworkScheduler, judged by a shadow ledger and a request history",
+        "Stateful exploration: every batch returned in every invocation of generated histories is checked for one model, full size, loaded model, capacity per shadow ledger, on-time completion, at-most-once placement and cancel-iff-hopeless. Exploration of short histories.",
+        "Start-up loading performed by the harness through scheduler.start(); scheduler_run_load off.",
+        "DESIGN.md 3 C15",
+    ),
     "C16": (
         "Hypothesis-generated EventTime triples against integer-microsecond arithmetic; generated "
         "EventQueue operation histories against a reference multiset (model-based)",
